@@ -224,12 +224,14 @@ Definition process (c : committee) (p : pool) (strag : N) (timeout : bool) : poo
 (* ---------- operation sequences ---------- *)
 Inductive op :=
 | OAdd (ec : commitment)
-| OProc (strag : N) (timeout : bool).
+| OProc (strag : N) (timeout : bool)
+| OProbe (strag : N) (timeout : bool).   (* harness only: ProcessCommitments on a copy of the pool *)
 
 Definition step (c : committee) (p : pool) (o : op) : pool :=
   match o with
   | OAdd ec => fst (add c p ec)
   | OProc s t => fst (process c p s t)
+  | OProbe _ _ => p
   end.
 Definition run (c : committee) (ops : list op) (p : pool) : pool := fold_left (step c) ops p.
 
@@ -259,6 +261,10 @@ Fixpoint run_obs (c : committee) (ops : list op) (p : pool) : list obs * pool :=
   | OProc s t :: r =>
       let '(p1, o) := process c p s t in
       let '(l, pf) := run_obs c r p1 in
+      ((outcome_code o, chosen o, hr p1, disc p1) :: l, pf)
+  | OProbe s t :: r =>
+      let '(p1, o) := process c p s t in
+      let '(l, pf) := run_obs c r p in
       ((outcome_code o, chosen o, hr p1, disc p1) :: l, pf)
   end.
 
